@@ -30,7 +30,7 @@ STREAM = []
 PCT = []
 
 _choice, _randint, _shuffle, _percentile = np.random.choice, np.random.randint, np.random.shuffle, np.percentile
-_resample = ccmod.resample
+_resample = getattr(ccmod, "resample", None)      # observation points are wrapped only if the module has them
 
 
 def _ints(a):
@@ -91,7 +91,7 @@ def w_percentile(a, q, *args, **kw):
     return r
 
 
-_quantile = np.quantile
+_quantile = getattr(np, "quantile", None)
 
 
 def w_quantile(a, q, *args, **kw):
@@ -107,8 +107,10 @@ def w_quantile(a, q, *args, **kw):
 
 
 np.random.choice, np.random.randint, np.random.shuffle, np.percentile = w_choice, w_randint, w_shuffle, w_percentile
-np.quantile = w_quantile
-ccmod.resample = w_resample
+if _quantile is not None:
+    np.quantile = w_quantile
+if _resample is not None:
+    ccmod.resample = w_resample
 
 
 def fx(v):
@@ -145,17 +147,27 @@ def idx_list(v):
 
 
 def info_json(di):
+    """canonical, JSON-able form of dataset_info; entries that lack an expected key are rendered with null (and so compare
+    unequal to the model) instead of crashing the driver"""
+    def ixs(e, k):
+        return idx_list(e[k]) if isinstance(e, dict) and k in e else None
+
+    def fxs(e, k):
+        return fx(e[k]) if isinstance(e, dict) and k in e else None
+
     out = {"keys": sorted(di.keys())}
     out["general"] = {} if di.get("general") == {} else "nonempty"
-    out["combinations"] = [{"feature_indices": idx_list(e["feature_indices"]), "combination_type": str(e["combination_type"]),
-                            "combination_ix": int(e["combination_ix"])} for e in di.get("combinations", [])]
-    out["correlations"] = [{"feature_indices": idx_list(e["feature_indices"]), "correlated_indices": idx_list(e["correlated_indices"]),
-                            "correlation_factor": fx(e["correlation_factor"])} for e in di.get("correlations", [])]
-    out["duplicates"] = [{"feature_indices": idx_list(e["feature_indices"]), "duplicate_indices": idx_list(e["duplicate_indices"])}
+    out["combinations"] = [{"feature_indices": ixs(e, "feature_indices"),
+                            "combination_type": str(e.get("combination_type")) if isinstance(e, dict) else None,
+                            "combination_ix": int(e["combination_ix"]) if isinstance(e, dict) and "combination_ix" in e else None}
+                           for e in di.get("combinations", [])]
+    out["correlations"] = [{"feature_indices": ixs(e, "feature_indices"), "correlated_indices": ixs(e, "correlated_indices"),
+                            "correlation_factor": fxs(e, "correlation_factor")} for e in di.get("correlations", [])]
+    out["duplicates"] = [{"feature_indices": ixs(e, "feature_indices"), "duplicate_indices": ixs(e, "duplicate_indices")}
                          for e in di.get("duplicates", [])]
     lab = di.get("labels", {})
     out["labels"] = None if lab == {} else {"class_relation": str(lab.get("class_relation")), "n_class": int(lab.get("n_class"))}
-    out["noise"] = [{"type": str(e["type"]), "amount": fx(e["amount"])} for e in di.get("noise", [])]
+    out["noise"] = [{"type": str(e.get("type")) if isinstance(e, dict) else None, "amount": fxs(e, "amount")} for e in di.get("noise", [])]
     ds = di.get("downsampling")
     out["downsampling"] = None if ds is None else {"original_shape": [int(t) for t in ds["original_shape"]],
                                                    "downsampled_shape": [int(t) for t in ds["downsampled_shape"]]}
